@@ -4,7 +4,7 @@
 (* event, against the access envelope the clause's pinning conjuncts       *)
 (* license (KvRegion!Pins / FaceUnsat, carried by the record).             *)
 (*                                                                         *)
-(*  PointRead(k)   Get(k): allowed by a POINTS envelope containing k       *)
+(*  PointRead(k)   Get(k): k lies in the pinned set or region              *)
 (*  ReadIn(k)      cursor read of a key inside a PREFIX/RANGE envelope     *)
 (*  ReadBeyond(k)  first key past the end; no further read in that poll    *)
 (*  a key before the region start is never read; an unsatisfiable clause   *)
@@ -23,7 +23,8 @@ Env(c, p) == LET x == c.pins[p] IN
              [tp |-> x.tp, ks |-> x.ks, lo |-> IF x.haslo THEN x.lo ELSE NIL, hi |-> IF x.hashi THEN x.hi ELSE NIL]
 AllPins(c) == 1..Len(c.pins)
 
-PointRead(c, al, k) == {p \in al : Env(c, p).tp = "POINTS" /\ EnvIn(k, Env(c, p))}
+\* a point read of a key inside the pinned set or region
+PointRead(c, al, k) == {p \in al : EnvIn(k, Env(c, p))}
 ScanRead(c, al, by, k) == {p \in al : Env(c, p).tp \in {"PREFIX", "RANGE"} /\ p \notin by /\ ~EnvBefore(k, Env(c, p))}
 Beyond(c, al, k) == {p \in al : ~EnvIn(k, Env(c, p))}
 
